@@ -42,6 +42,11 @@ def configs():
         spec = dict(name='Tbl', opts={'in_format': inf, 'allow_extra': ae, **cn}, fields=[f1, f2])
         yield idx, spec
         idx += 1
+        if not fn and not kw2:
+            # the same class with a field the class initialises itself (init=False) between the two: positional data skips it
+            hidden = dict(name='hidden', type=['list', 'int'], default=None, init=False, exclude=True, compare=False, repr=False, kw_only=False)
+            yield idx, dict(spec, fields=[f1, hidden, f2], init_false_setter=[['hidden', '[]']])
+            idx += 1
 
 
 def universe(spec):
